@@ -245,6 +245,27 @@ Definition meas_addsub_bare (sub : bool) (r : reg) (E : venv) (m : meas) (b : af
        if uc_eqb d ∅ then m' ←r meas_to r m ∅; Ok (Meas (op (m_mag m') b) ∅)
        else Err EDim.
 
+(** ** Histories on ONE measurement object.  [value], [error], [rel] build new Quantity objects
+    from the current magnitude and units: reading them (or converting what they returned in
+    place) leaves the measurement as it is; an in-place conversion ([ito], [ito_base_units], …)
+    replaces magnitude and units by those of the out-of-place conversion, and a refused one
+    changes nothing.  There is no other state. *)
+Inductive mop := ORead | OIto (dst : uc) | OMutateReturned.
+Definition mstep (r : reg) (m : meas) (o : mop) : meas :=
+  match o with
+  | OIto d => match meas_to r m d with Ok m' => m' | Err _ => m end
+  | ORead | OMutateReturned => m
+  end.
+Definition mrun (r : reg) (m : meas) (ops : list mop) : meas := fold_left (mstep r) ops m.
+Definition is_ito (o : mop) : bool := match o with OIto _ => true | _ => false end.
+Fixpoint only_ito (ops : list mop) : list mop :=
+  match ops with
+  | [] => []
+  | o :: ops' => if is_ito o then o :: only_ito ops' else only_ito ops'
+  end.
+Definition observe (E : venv) (m : meas) : (Qc * uc) * option (Qc * uc) * res Qc :=
+  (m_value m, m_error E m, m_rel E m).
+
 (** ** Expressions with shared variables (what the correspondence generates) *)
 Inductive mexpr :=
 | XVar (i : atom)                       (* a measurement created once, possibly used many times *)
